@@ -26,6 +26,7 @@ import JanetModel.Lib.Boot8
 import JanetModel.Lib.MiscC2
 import JanetModel.Lib.Boot9
 import JanetModel.Lib.Boot10
+import JanetModel.Lib.Boot11
 open Driver JanetModel.Lib
 
 inductive V where
@@ -181,6 +182,27 @@ def cat2fn (name : String) : Option (Int → Int → List Int) :=
 
 instance : Inhabited (Boot.Nest V) := ⟨.node []⟩
 
+/-- variadic functions for map / mapcat / keep / count over many sequences: first argument and the row of the others -/
+def varfn (name : String) : Option (Int → List Int → Int) :=
+  match name with
+  | "vsum" => some (fun x row => row.foldl (· + ·) x)
+  | "vlast" => some (fun x row => (row.getLast?).getD x) | _ => none
+def varcat (name : String) : Option (Int → List Int → List Int) :=
+  match name with
+  | "vtup" => some (fun x row => x :: row) | "vrev" => some (fun x row => (x :: row).reverse) | _ => none
+def varkeep (name : String) : Option (Int → List Int → Option Int) :=
+  match name with
+  | "vsumpos" => some (fun x row => let t := row.foldl (· + ·) x; if t > 0 then some t else none)
+  | "vsum" => some (fun x row => some (row.foldl (· + ·) x)) | _ => none
+def varpred (name : String) : Option (Int → List Int → Bool) :=
+  match name with
+  | "vasc" => some (fun x row => ((x :: row).zip row).all (fun p => decide (p.1 < p.2)))
+  | "vtrue" => some (fun _ _ => true) | _ => none
+
+/-- `map-n n` (n ≤ 3 extra sequences) or the general branch of map-template, as map-template selects them -/
+def mapTemplate {σ γ : Type} (agg : σ → γ → σ) (g : Int → List Int → γ) (init : σ) (xs : List Int) (rest : List (List Int)) : R σ :=
+  if rest.length ≤ 3 then Boot.mapN agg g init xs rest else Boot.mapGen agg g init xs rest
+
 /-- a value as `flatten` sees it -/
 partial def toNest : V → Boot.Nest V
   | .seq _ l => .node (l.map toNest)
@@ -296,7 +318,50 @@ def rangeOutWith (args : List V) (s e st : Int) : Out :=
   | some l => if l.length > 100000 then .skip else .ok (.seq 1 (l.map showScaled8)) args
   | none => .skip
 
+/-- map / mapcat / keep / count with a variadic named function (`v…`) over any number of sequences -/
+def isVarCall (args : List V) : Bool :=
+  match args with
+  | (.fn g) :: _ :: _ => g.startsWith "v"
+  | _ => false
+
+def callVar (f : String) (args : List V) : Out :=
+  match args with
+  | (.fn g) :: (.seq _ l) :: rest =>
+    (match ints l, rest.mapM (fun v => match v with | .seq _ l' => ints l' | _ => none) with
+     | some xs, some cols =>
+       if f == "map" then
+         (match varfn g with
+          | some g =>
+            let agg := fun (res : Array Int) (v : Int) => res.push v
+            let r := (Boot.mapRows agg g #[] xs cols).toList
+            withMirror (do let a ← mapTemplate agg g #[] xs cols; pure a.toList) (some r) args (.ok (.seq 1 (r.map V.int)) args)
+          | none => .skip)
+       else if f == "mapcat" then
+         (match varcat g with
+          | some g =>
+            let agg := fun (res : Array Int) (v : List Int) => res ++ v.toArray
+            let r := (Boot.mapRows agg g #[] xs cols).toList
+            withMirror (do let a ← mapTemplate agg g #[] xs cols; pure a.toList) (some r) args (.ok (.seq 1 (r.map V.int)) args)
+          | none => .skip)
+       else if f == "keep" then
+         (match varkeep g with
+          | some g =>
+            let agg := fun (res : Array Int) (v : Option Int) => Boot.keepAgg res v
+            let r := (Boot.mapRows agg g #[] xs cols).toList
+            withMirror (do let a ← mapTemplate agg g #[] xs cols; pure a.toList) (some r) args (.ok (.seq 1 (r.map V.int)) args)
+          | none => .skip)
+       else
+         (match varpred g with
+          | some g =>
+            let agg := fun (res : Nat) (v : Bool) => if v then res + 1 else res
+            let r := Boot.mapRows agg g 0 xs cols
+            withMirror (mapTemplate agg g 0 xs cols) (some r) args (.ok (.int r) args)
+          | none => .skip)
+     | _, _ => .skip)
+  | _ => .skip
+
 def call (f : String) (args : List V) : Out :=
+  if (f == "map" || f == "mapcat" || f == "keep" || f == "count") && isVarCall args then callVar f args else
   if f == "range" then
     (match args.mapM scaled8 with
      | some [e] => rangeOutWith args 0 e 8
@@ -702,6 +767,13 @@ def call (f : String) (args : List V) : Out :=
     (match cols.mapM indexedOf with
      | some [c0] => withMirror (Boot.interleave1 c0) (some (interleave [c0])) args (.ok (.seq 1 (interleave [c0])) args)
      | some [c0, c1] => withMirror (Boot.interleave2 c0 c1) (some (interleave [c0, c1])) args (.ok (.seq 1 (interleave [c0, c1])) args)
+     | some (c0 :: cols) =>
+       let agg := fun (res : Array V) (row : List V) => res ++ row.toArray
+       let m : R (List V) := do
+         let a ← (if cols.length ≤ 3 then Boot.mapN agg (fun (x : V) row => x :: row) #[] c0 cols
+                  else Boot.mapGen agg (fun (x : V) row => x :: row) #[] c0 cols)
+         pure a.toList
+       withMirror m (some (interleave (c0 :: cols))) args (.ok (.seq 1 (interleave (c0 :: cols))) args)
      | some cs => .ok (.seq 1 (interleave cs)) args
      | none => .skip)
   | "interpose", [sep, .seq _ l] => withMirror (Boot.interpose sep l) (some (interpose sep l)) args (.ok (.seq 1 (interpose sep l)) args)
